@@ -298,7 +298,8 @@ fn report(text: &str, stage: &str, order: u64, rep: &Report) {
     };
     let (ops, kinds, w, negs) = text_shape(&min);
     // value mismatches: which kind of root differs is part of the signature
-    let root = ["init", "next", "output", "bad", "constraint"].iter().find(|k| what.contains(&format!(": {k} "))).copied().unwrap_or("");
+    // which root differs is arbitrary after shrinking, except for init (array lifting)
+    let root = if what.contains(": init ") { "init" } else { "" };
     let sig = format!("C08|{class}|{ops}|{kinds}|{}|{negs}|{root}", wclass(w));
     rep.violation(Violation { sig, what, case: json!({"text": min, "found_in": text, "stage": stage}), order });
 }
